@@ -93,3 +93,32 @@ def check(rep, F, rule='FLOAT-PATH'):
     else:
         rep.ok(rule, key, '%d of %d paths use float arithmetic on a converted integer, all with a non-negative decimal exponent (multiplication) or a bound on the integer\'s size; decimals with fraction digits reach the parser' % (n_arith, len(paths)), fn.where())
     return 1
+
+
+def no_float_casts(rep, F, rule='FLOAT-PATH'):
+    """float -> decimal is exact only through the bit pattern: a numeric cast of the float (to an integer: saturating and
+    truncating; from an integer back: rounding) on that path cannot be exact for every value, and a round-trip test built
+    from such casts (`(n as i64) as f64 == n`) is fooled at the saturation boundary.  No FloatToInt / IntToFloat / FloatToFloat
+    narrowing cast may occur in the functions reachable from the float classifiers"""
+    ents = [f for f in F.real_fns() if re.search(r'parsing::try_parse_from_f(32|64)$', f.name) and not f.is_closure]
+    if not ents:
+        rep.violation(rule, 'try_parse_from_f*:missing', 'float classifiers not found (fail closed)')
+        return 0
+    names = [n for n in F.reach(ents) if re.search(r'(^|::)parsing::', n)]
+    rep.add_functions(names)
+    bad = []
+    for nme in sorted(names):
+        fn = F.fns[nme]
+        for bid, st in fn.stmts():
+            rv = st['rv']
+            if rv['r'] == 'cast' and re.search(r'FloatToInt|IntToFloat', str(rv.get('kind', ''))):
+                bad.append((fn, rv['kind'], rv.get('to'), st['line']))
+            if rv['r'] == 'cast' and str(rv.get('kind', '')).startswith('FloatToFloat') and rv.get('to') == 'f32':
+                bad.append((fn, rv['kind'], rv.get('to'), st['line']))
+    key = 'parsing:float-to-decimal-through-bits-only'
+    if bad:
+        fn, kind, to, line = bad[0]
+        rep.violation(rule, key, 'a numeric cast (%s to %s) of a float on the float -> decimal path in %s: such casts saturate, truncate or round, so the decimal is not the exact binary value for every float (the value at the saturation boundary slips through a cast round-trip test)' % (kind, to, fn.key), fn.where(line))
+    else:
+        rep.ok(rule, key, '%d functions on the float -> decimal path: the float is only taken apart through to_bits(); no float/integer numeric cast' % len(names))
+    return 1
